@@ -298,6 +298,14 @@ def check(case):
         tspecs = [dict(t_, id="%s" % t_["id"]) for t_ in dec if len(t_["data"]) < 3000][:5]
         if len(tspecs) >= 2:
             common.check_threads(res, "C12", tspecs, case["input"]["threads"], label=label)
+    # types declared during the history (sim/dyntypes.py): every 25-th run or so, derived from the case so that a replay needs nothing else
+    if int(__import__("hashlib").sha256(repr(sorted((t_["id"], t_.get("data", "")[:48]) for t_ in case["tasks"])).encode()).hexdigest()[:6], 16) % 25 == 0:
+        from .. import dyntypes
+        seed_ = int(__import__("hashlib").sha256(repr([t_.get("data", "")[:48] for t_ in case["tasks"]]).encode()).hexdigest()[6:12], 16)
+        res.count("types-declared-during-the-history")
+        for msg_ in dyntypes.run("C12", seed_):
+            res.v("C12.D", "C12.D:declared-later", "a type declared during the history (template seed %d): %s" % (seed_, msg_))
+            break
     res.count("comparisons", compared)
     if compared:
         res.nontrivial(sorted(t["data"] for t in dec), res.sched)
